@@ -1749,3 +1749,96 @@ RS.explanation += (' Added after wave 3: every holder of a fresh pipe() pair out
                    'of BlockSignals the block step adds {SIGINT, SIGQUIT} and returns the previous mask written by that sigmask call, the restore step '
                    'installs exactly that value with SigmaskOp::Set on every path, delegating implementations pass it through, and Config::start '
                    'restores the value it saved (R12).')
+
+
+# ---------------------------------------------------------------- added after the wave-4 seed agents (C08, C11) reported, independently,
+# a regression made by fix 91a2053: the SIGCHLD disposition was installed inside the block_sigint_sigquit .. restore_sigmask window
+WINDOW_OPEN = [re.compile(r'::BlockSignals::block_sigint_sigquit$')]
+WINDOW_CLOSE = [re.compile(r'::BlockSignals::restore_sigmask$')]
+WINDOW_FORBIDDEN = [re.compile(r'::SignalSystem::set_disposition$'), re.compile(r'::Select::select$'), re.compile(r'::Sigaction::sigaction$')]
+WINDOW_EXEMPT = {
+    'yash_env::Env::<S>::run_in_child_process':
+        'the fork itself: the closure it is given runs in the CHILD, which leaves the window by design (enter_subshell unblocks there)',
+}
+
+
+def _roots_reaching(F, sink_pats):
+    """Roots (functions with their closures) of the workspace from which a call matching sink_pats is reachable."""
+    graph = {}
+    reach = set()
+    for root, bodies in F.by_root.items():
+        out = set()
+        for b in bodies:
+            for blk, t in b.calls():
+                if Q.callee_is(t, sink_pats):
+                    reach.add(root)
+                for n in Q.callee_names(t):
+                    out.add(n.split('::{closure')[0])
+        graph[root] = out
+    changed = True
+    while changed:
+        changed = False
+        for root, out in graph.items():
+            if root not in reach and out & reach:
+                reach.add(root)
+                changed = True
+    return reach
+
+
+@RS.rule('C08.R13', 'K-ORDER+K-RES', 'the signal mask saved around a fork is restored exactly: between block_sigint_sigquit and restore_sigmask the parent '
+         'changes no disposition and does not wait in select (the contract documented on BlockSignals for Concurrent: a disposition change '
+         'in the window is undone or half-undone by restore_sigmask), and no exit of the window skips the restore')
+def r13(cx):
+    F = cx.F
+    reach = _roots_reaching(F, WINDOW_FORBIDDEN)
+    cx.site('%d functions of the workspace can change a disposition or wait in select' % len(reach))
+    cx.require(any(r.endswith('enable_internal_disposition_for_sigchld') for r in reach) and any(r.endswith('TrapSet::enter_subshell') for r in reach),
+               'call graph: the TrapSet routines no longer reach SignalSystem::set_disposition (positive example of the reachability matcher)')
+    n = 0
+    for b0, blk0, t0 in F.callers_of(lambda names, t: any(WINDOW_OPEN[0].search(nm) for nm in names)):
+        if b0.root.startswith('yash_env::system::'):
+            continue        # the implementations of the trait forwarding to the inner system
+        n += 1
+        body = F.main_body(b0.root)
+        cx.fn(body.fn)
+        du = Q.DefUse(body)
+        opens = Q.find_calls(body, WINDOW_OPEN)
+        closes = Q.find_calls(body, WINDOW_CLOSE)
+        for ob, ot in opens:
+            start = done_block(F, body, du, ob, ot)
+            start = start if start != ob else ot.get('to')
+            closing = {cb for cb, ct in closes}
+            window = body.reachable(start, removed=closing) if start is not None else set()
+            inside = []
+            for blk, t in body.calls():
+                if blk not in window or blk in closing:
+                    continue
+                names = {nm.split('::{closure')[0] for nm in Q.callee_names(t)}
+                if names & set(WINDOW_EXEMPT):
+                    continue
+                if Q.callee_is(t, WINDOW_FORBIDDEN) or names & reach:
+                    inside.append((blk, t))
+            cx.site('%s: window opened at %s, closed at %s; calls inside that can change a disposition / select: %s' % (
+                body.root, body.loc(ot), [body.loc(t) for _, t in closes], [pp.callee(t).split('::')[-1] for _, t in inside] or 'none'))
+            for blk, t in inside:
+                cx.violation(body.root, 'disposition-changed-in-mask-window:%s' % pp.callee(t).split('::')[-1].split(' ')[0],
+                             '%s is called between block_sigint_sigquit and restore_sigmask and can change a signal disposition (or select): '
+                             'Concurrent keeps a caught signal blocked, restore_sigmask then puts back the mask of before - the signal ends up '
+                             'caught but unblocked (its handler can run outside select: lost wake-up), and a select mask first computed inside '
+                             'the window keeps SIGINT/SIGQUIT blocked for good (`sleep 100 & wait` as the first commands of a script cannot be '
+                             'interrupted)' % pp.callee(t), loc=body.loc(t))
+            if not closes:
+                cx.violation(body.root, 'mask-window-never-closed', 'the signal mask saved by block_sigint_sigquit is never restored', loc=body.loc(ot))
+                continue
+            leaks, tainted, release, absent = Q.resource_leak_paths(
+                F, body, ob, ot['dest']['l'],
+                lambda tainted: {cb for cb, ct in closes if any((Q.operand_place(a) or {}).get('l') in tainted for a in ct['a'])},
+                through_calls=Q.PROPAGATING_CALLS + Q.AWAIT_CALLS + Q.TRY_BRANCH)
+            for ex in (Q.leaking_exits(F, body, ob, release, absent) if leaks else []):
+                cx.violation(body.root, 'exit-inside-mask-window:%s' % ex['label'], 'the function can return (%s) between block_sigint_sigquit and '
+                             'restore_sigmask: the shell stays with SIGINT and SIGQUIT blocked and every later child inherits that mask' % ex['what'],
+                             loc=ex['loc'], path=ex['path'])
+    cx.floor(n, 1, 'users of block_sigint_sigquit outside the system layer')
+
+
+RS.explanation += ' Nothing changes a disposition or returns between block_sigint_sigquit and restore_sigmask (R13 = C11.R12).'
